@@ -54,11 +54,11 @@ def timeoutCaseOK (w : WaitSite) : Bool :=
   | _ => false
 theorem timeout_cases : Generated.waitSites.all (fun w => !(timed w && !w.cases.isEmpty) || timeoutCaseOK w) = true := by decide
 
-/-- REQ waits on a condition variable: Send while its message is still queued, not expired, not closed and (with
-    fail-no-peers) a peer exists; Recv while the request is still the one it began with and no reply is stored -/
+/-- REQ waits on a condition variable: Send while its message is still queued, not abandoned by cancel, not expired,
+    not closed and (with fail-no-peers) a peer exists; Recv while the request is still the one it began with and no reply is stored -/
 theorem req_cond_waits : (Generated.waitSites.filter (fun w => !w.condWaits.isEmpty)).map (fun w => (w.pkg, w.fn, w.condWaits)) =
     [("protocol/req", "RecvMsg", ["id==reqID&&repMsg==nil"]),
-     ("protocol/req", "SendMsg", ["sendMsg==m&&!expired&&!closed&&!(failNoPeers&&len(s.pipes)==0)"])] := by decide
+     ("protocol/req", "SendMsg", ["sendMsg==m&&sendAbort!=m&&!expired&&!closed&&!(failNoPeers&&len(s.pipes)==0)"])] := by decide
 
 /-- best-effort is implemented by exactly the sending sites below -/
 theorem best_effort_sites : (Generated.waitSites.filter (fun w => (siteOf w).hasBE)).map (fun w => (w.pkg, w.recv, w.fn, w.bestEffort)) =
